@@ -24,7 +24,7 @@ NAMES = ["a", "b", "c", "foo", "x1"]
 
 DEFAULT_CFG = {"max_f": f2b(1.0), "min_f": f2b(-1.0), "max_i": 10, "min_i": -10, "push_limit": 1000,
                "time_limit": 5000, "growth_cap": 500, "new_name_p": 981668463, "max_rand_points": 25,
-               "max_prog_points": 100}
+               "max_prog_points": 100, "in_cap": 10, "out_cap": 3, "graph_cap": 100}
 
 
 def empty_state():
@@ -157,6 +157,11 @@ class Gen:
             s["cfg"]["growth_cap"] = r.choice([0, 1, 2, 500])
             s["cfg"]["push_limit"] = r.choice([-1, 0, 1, 5, 1000])
             s["cfg"]["max_rand_points"] = r.choice([25, 3, 0, -5, 50])
+        if r.random() < 0.2:   # queues / graph stack of another capacity than the default (installed by the host)
+            s["cfg"]["in_cap"], s["cfg"]["out_cap"], s["cfg"]["graph_cap"] = r.choice([1, 3, 10, 12]), r.choice([1, 2, 5, 8]), r.choice([1, 2, 3, 150])
+            s["input"] = s["input"][:s["cfg"]["in_cap"]]
+            s["output"] = s["output"][:s["cfg"]["out_cap"]]
+            s["graph"] = s["graph"][:s["cfg"]["graph_cap"]]
         if r.random() < 0.5:   # rotated ring positions (invisible in the abstract state)
             s["rot"] = {"input": r.randint(0, 12), "output": r.randint(0, 4), "graph": r.choice([0, 0, 1, 99, 100, 150])}
         if r.random() < 0.3:
